@@ -7,6 +7,7 @@ use std::io::Read;
 use std::panic::{catch_unwind, AssertUnwindSafe};
 
 mod ops;
+mod regs;
 
 pub fn geti(v: &serde_json::Value, k: &str) -> Option<i64> {
     v.get("inputs")?.get(k)?.as_i64()
@@ -23,6 +24,7 @@ fn main() {
         Some("ops-math-op") => ops::math_op(&v),
         Some("ops-scalar-op") => ops::scalar_op(&v),
         Some("ops-search") => ops::search(&v),
+        Some("regs") => regs::run(args.get(1).map(String::as_str).unwrap_or(""), &v),
         _ => {
             println!("unknown replay recipe {:?}", args);
             2
